@@ -10,6 +10,7 @@ CONSTANTS
   TG = "t22s"
   LAYOUTS = {"dfs", "hole", "rev", "low"}
   EMIT = TRUE
+VIEW View
 INVARIANTS LawRegions
 ACTION_CONSTRAINT Emit
 CHECK_DEADLOCK FALSE
